@@ -96,6 +96,14 @@ def _ctor_arg(v):
     return v[2][0] if len(v[2]) == 1 else None
 
 
+TRANSPOSE = ('std::option::Option::<std::result::Result<T, E>>::transpose',
+             'std::result::Result::<std::option::Option<T>, E>::transpose')
+
+
+SAME_ELEMENTS = ('std::iter::Iterator::by_ref', 'std::iter::IntoIterator::into_iter', 'std::iter::Iterator::fuse',
+                 'std::iter::Iterator::peekable')
+
+
 def listing_dirs(sl, v, depth=0):
     """directories whose listing (ReadDir) or listed entry (DirEntry) the value v is, looking through `?`/unwrap,
     Some/Ok wrappers, `.map(Some)` and private helpers that open the listing: [dir values] or None.
@@ -125,6 +133,12 @@ def listing_dirs(sl, v, depth=0):
         name, args = v[1], v[2]
         if name == 'std::iter::Iterator::next' and args:
             return listing_dirs(sl, args[0], depth + 1)
+        if name in SAME_ELEMENTS and args:
+            # adapters that hand on the very same elements (`for e in listing.by_ref()`, `.peekable()`, `.fuse()`)
+            return listing_dirs(sl, args[0], depth + 1)
+        if name in TRANSPOSE and len(args) == 1:
+            # Option<Result<T>> <-> Result<Option<T>>: the same payload, wrappers swapped
+            return listing_dirs(sl, args[0], depth + 1)
         if name == 'std::fs::read_dir' and args:
             return [args[0]]
         if name in Slicer.MAP_LIKE and len(args) == 2 and args[1][0] == 'fnitem' and args[1][1].rsplit('::', 1)[-1] in ('Some', 'Ok'):
@@ -134,6 +148,140 @@ def listing_dirs(sl, v, depth=0):
             if iv is not None and iv != v:
                 return listing_dirs(sl, iv, depth + 1)
     return None
+
+
+ENTRY_NAME = 'std::fs::DirEntry::file_name'
+ENTRY_PATH = 'std::fs::DirEntry::path'
+PATH_JOIN = ('std::path::Path::join', 'std::path::PathBuf::join')
+# conversions between OsString / OsStr / Path / PathBuf (and references to them) that keep the bytes of a name
+_NAME_CONV_LAST = {'deref', 'as_ref', 'borrow', 'as_os_str', 'as_path', 'clone', 'to_owned', 'to_os_string', 'to_path_buf',
+                   'into_os_string', 'as_os_string', 'into', 'from', 'into_boxed_os_str', 'into_boxed_path'}
+_NAME_CONV_FULL = {'std::path::Path::new', 'std::path::PathBuf::from', 'std::ffi::OsString::from'}
+# calls whose result is a function of their arguments only (comparing two of them without their call sites is sound)
+_PURE_PATH_LAST = {'deref', 'as_ref', 'borrow', 'as_path', 'clone', 'to_owned', 'to_path_buf', 'join', 'as_os_str'}
+
+
+def _entry_of_name(v):
+    """entry E when v is `E.file_name()` behind byte-preserving conversions, else None"""
+    for _ in range(8):
+        v = strip(v)
+        if v[0] != 'call' or len(v[2]) != 1:
+            return None
+        if v[1] == ENTRY_NAME:
+            return v[2][0]
+        if v[1] in _NAME_CONV_FULL or v[1].rsplit('::', 1)[-1] in _NAME_CONV_LAST:
+            v = v[2][0]
+            continue
+        return None
+    return None
+
+
+def _peel_conv(v):
+    """v without the conversions between &Path / PathBuf / OsStr that keep the path (`dir.to_path_buf()` is `dir`)"""
+    for _ in range(8):
+        v = strip(v)
+        if v[0] == 'call' and len(v[2]) == 1 and (v[1] in _NAME_CONV_FULL or v[1].rsplit('::', 1)[-1] in _NAME_CONV_LAST):
+            v = v[2][0]
+            continue
+        break
+    return v
+
+
+def _same_dir_value(a, b):
+    """do two directory values denote the same path: identical terms, or terms that agree up to call-site identity and
+    consist of pure path arithmetic only (two `next()` calls at different sites are different entries)"""
+    a, b = _peel_conv(a), _peel_conv(b)
+    if a == b:
+        return True
+    from .lib.value import canon
+    if canon(a) != canon(b):
+        return False
+    return all(x[0] != 'call' or x[1] in _NAME_CONV_FULL or x[1].rsplit('::', 1)[-1] in _PURE_PATH_LAST for x in walk(a))
+
+
+def entry_paths_nf(sl, v, _memo=None):
+    """normal form of path values: `D.join(entry.file_name())` where `entry` was listed from the same D is, by std's
+    definition of DirEntry::path ("the full path created by joining the original path to read_dir with the filename of
+    this entry"), the value `entry.path()`.  A join of an entry's name to any *other* directory stays a join."""
+    if not isinstance(v, tuple) or not v:
+        return v
+    if not any(x[0] == 'call' and x[1] == ENTRY_NAME for x in walk(v)):
+        return v
+    if _memo is None:
+        _memo = {}
+    return _epnf(sl, v, _memo)
+
+
+def _epnf(sl, v, memo):
+    if not isinstance(v, tuple) or not v:
+        return v
+    if v[0] in ('const', 'param', 'fnitem', 'constitem', 'unknown', 'closure_env', 'upvar'):
+        return v
+    r = memo.get(v)
+    if r is not None:
+        return r
+    out = tuple(_epnf(sl, x, memo) if isinstance(x, tuple) else x for x in v)
+    if out[0] == 'call' and out[1] in PATH_JOIN and len(out[2]) == 2:
+        entry = _entry_of_name(out[2][1])
+        if entry is not None:
+            dirs = listing_dirs(sl, entry)
+            if dirs and all(_same_dir_value(d, out[2][0]) for d in dirs):
+                out = ('call', ENTRY_PATH, (entry,)) + tuple(out[3:])
+    memo[v] = out
+    return out
+
+
+def bool_edges(fn, sl):
+    """a Cond for *every* out-edge of a boolean switch of fn (guards.conditions only reports the edges that dominate
+    one block): the raw material for "every way to X crosses an edge that asserts P" """
+    from .lib.guards import Cond
+    out = []
+    for sb, blk in enumerate(fn.blocks):
+        t = blk['t']
+        if t['t'] != 'switch' or t.get('oty') != 'bool':
+            continue
+        listed = [v for v, _ in t['targets']]
+        by_target = {}
+        for v, tb in t['targets']:
+            by_target.setdefault(tb, []).append(v)
+        by_target.setdefault(t['else'], []).append('else')
+        if len(by_target) < 2:
+            continue
+        val0 = sl.operand(fn, t['o'])
+        for tb, labels in by_target.items():
+            if labels == ['else'] and listed == [0]:
+                outcome = True
+            elif labels == [0]:
+                outcome = False
+            elif labels == [1]:
+                outcome = True
+            elif labels == ['else'] and listed == [1]:
+                outcome = False
+            else:
+                continue
+            val = val0
+            while val[0] == 'un' and val[1] == 'Not':
+                val, outcome = val[2], not outcome
+            cd = Cond(fn, sb, tb, 'bool', outcome, val)
+            cd._slicer = sl
+            out.append(cd)
+    return out
+
+
+def reaches_avoiding(fn, starts, goal, cut):
+    """is block `goal` reachable from one of `starts` (normal edges) without using an edge of `cut`"""
+    seen, todo = set(), list(starts)
+    while todo:
+        b = todo.pop()
+        if b in seen:
+            continue
+        seen.add(b)
+        if b == goal:
+            return True
+        for t in fn.succs(b):
+            if (b, t) not in cut:
+                todo.append(t)
+    return False
 
 
 class TreePaths(LayerPaths):
@@ -156,7 +304,7 @@ class TreePaths(LayerPaths):
         return k
 
     def _classify(self, v, depth):
-        v = simplify(self.sl, v)
+        v = entry_paths_nf(self.sl, simplify(self.sl, v))
         s = strip(v)
         if s[0] == 'call' and s[1] == 'std::fs::DirEntry::path' and len(s[2]) == 1:
             k = LayerPaths.classify(self, v, depth)
@@ -266,6 +414,10 @@ class Worklist:
                 continue
             if kind == 'stmt':
                 st = fn.blocks[bi]['s'][idx]
+                if st[2]['r'] == 'ref' and not st[2].get('mut') and len(st[1]) == 1:
+                    # a shared reborrow (`&*current` handed to Path::join): nothing reachable through a `&PathBuf` /
+                    # `&ReadDir` changes the component (advancing a listing needs `&mut`)
+                    continue
                 if st[2]['r'] in ('ref', 'use', 'cfd') and len(st[1]) == 1:
                     if not self._mutref_ok(st[1][0], seen):
                         return False
@@ -400,6 +552,22 @@ class Worklist:
                 if any(kind_of(self.comp(tmp, v, k)) != kd for v in ind_vals):
                     ok = False
                     break
+            if ok and kinds:
+                # entry_paths_nf reads `P.join(entry.file_name())`, entry listed from L, as `entry.path()` when L lists P;
+                # through the representative that relation between two components of one element is assumed for every
+                # element, so it has to be part of the invariant: every pushed (.., P, .., L, ..) has L listing P
+                ps = [k for k, kd in kinds.items() if kd == 'path']
+                ls = [k for k, kd in kinds.items() if kd == 'listing']
+                if ps and ls:
+                    vals = [v for _, v in self.base] + ind_vals
+                    if len(ps) != 1 or len(ls) != 1:
+                        ok = False
+                    else:
+                        for v in vals:
+                            ds = listing_dirs(tmp, self.comp(tmp, v, ls[0]))
+                            if not ds or not all(_same_dir_value(d, self.comp(tmp, v, ps[0])) for d in ds):
+                                ok = False
+                                break
             if ok and kinds:
                 self.param, self.kinds = i, kinds
                 return True
@@ -764,6 +932,71 @@ def built_lists(prog, sl0):
     return seeds
 
 
+def _runs_again(fn, bb, fence):
+    """can block bb be executed a second time without passing through block `fence` in between"""
+    seen, todo = set(), [x for x in fn.succs(bb)]
+    while todo:
+        x = todo.pop()
+        if x == fence or x in seen:
+            continue
+        if x == bb:
+            return True
+        seen.add(x)
+        todo.extend(fn.succs(x))
+    return False
+
+
+def pathbuf_joins(prog, sl0):
+    """{(fn path, local): join chain}: `let mut p = base.to_path_buf(); p.push(a); p.push(b)` is `base.join(a).join(b)`
+    (std defines Path::join as exactly that).  Only for a local of type PathBuf, defined once from a non-empty base, whose
+    only mutations are `PathBuf::push` calls that each run at most once per definition, in dominance order (no pop /
+    set_file_name / set_extension / clear, no push that accumulates round a loop): OsString::push and String::push_str
+    add no separator and keep their concat reading."""
+    crates = set(prog.crate_names())
+    out = {}
+    for f in prog.fns.values():
+        if f.crate not in crates and f.path.split('::')[0] not in crates:
+            continue
+        for i, l in enumerate(f.locals):
+            if i <= f.argc or (l.get('ty') or '') != 'std::path::PathBuf':
+                continue
+            app = sl0._appends(f, i)
+            if not app or any(c.name != 'std::path::PathBuf::push' for c in app):
+                continue
+            defs = f.whole_defs(i)
+            if len(defs) != 1 or f.partial_defs(i):
+                continue
+            dbb = defs[0][1]
+            nmut = sum(1 for b in f.blocks for st in b['s']
+                       if st[0] == '=' and isinstance(st[2], dict) and st[2].get('r') == 'ref' and st[2].get('mut') and st[2]['p'][0] == i)
+            if nmut != len(app):
+                continue
+            if not all(f.dominates(dbb, c.bb) and not _runs_again(f, c.bb, dbb) for c in app):
+                continue
+            if not all(f.dominates(a.bb, b.bb) for a, b in zip(app, app[1:])):
+                continue
+            # every read of the path sees all the pushes (no conditional push, no read between two pushes)
+            reads = set()
+            for u in f.uses_of(i):
+                if u[1] == 'drop':
+                    continue
+                if u[1] == 'stmt':
+                    rv = f.blocks[u[0]]['s'][u[2]][2]
+                    if isinstance(rv, dict) and rv.get('r') == 'ref' and rv.get('mut'):
+                        continue
+                reads.add(u[0])
+            if any(c.bb in reads for c in app) or not all(always_through(f, dbb, c.bb, reads - {dbb}) for c in app):
+                continue
+            lv = sl0.local(f, i)
+            if lv[0] != 'concat' or lv[3] or len(lv[2]) != len(app):
+                continue
+            v = lv[1]
+            for x in lv[2]:
+                v = ('call', 'std::path::Path::join', (v, x), None)
+            out[(f.path, i)] = v
+    return out
+
+
 def seeded_slicer(prog, seeds, base=None):
     if not seeds:
         return base if base is not None else Slicer(prog)
@@ -1020,6 +1253,19 @@ class EffectsX(EffectsC):
 
 
 # ---- followers: functions that apply a symlink-following operation to a path they received -----------------------
+def direct_followers(prog, sl, fns):
+    """{fn path: parameter index}: the function itself applies CHMOD / LIST to that parameter"""
+    F = {}
+    for f in fns:
+        for c in f.calls:
+            ve = vocab_lookup(c)
+            if ve and ve[0] in FOLLOWING and ve[1] is not None and ve[1] < len(c.args):
+                pv = strip(sl.operand(f, c.args[ve[1]]))
+                if pv[0] == 'param' and pv[1] == f.path:
+                    F.setdefault(pv[1], pv[2])
+    return F
+
+
 def followers(prog, sl, fns):
     """{fn path: parameter index}: the function applies CHMOD / LIST to that parameter, itself or through the
     functions it hands the parameter to"""
